@@ -301,6 +301,8 @@ class StmtMixin:
                 recv = o if o.k == "ref" else self.unbox(o.t, cls, st)
                 return [x for x, _ in self.call_setter(recv, name, v, st, node)]
         ft = self.field_type(cls, name) if cls else self.unique_field(name)
+        if ft is None and name in self.ast_field_names:
+            ft = ("ast", "val")
         if ft is None:
             raise Unsupported(f"{self.where(node)}: store to undeclared field {cls}.{name}")
         decl, ty = ft
